@@ -41,7 +41,7 @@ def run(F, R):
     def direct_lookup_calls(b):
         out = []
         for c in b.calls():
-            if c.callee and re.search(r"collections::hash::map::\{impl#\d+\}::get$", c.callee):
+            if c.callee and (re.search(r"collections::hash::map::\{impl#\d+\}::get$", c.callee) or (c.declared or "").endswith("ops::index::Index::index") and "hash::map" in c.callee):
                 o, _ = trace(b, c.args[0])
                 if any(k == "field" and any(f in x for f in (".fragments", ".spreads", ".fragment_spreads", ".used_fragments")) for k, x in o):
                     out.append(c)
@@ -87,8 +87,26 @@ def run(F, R):
                         continue
                     # recursion reachable after the lookup: need a memo test dominating it
                     n += 1
+                    def set_id(call):
+                        fs = sorted({f for k, x in trace(b, call.args[0])[0] if k == "field" for f in x if isinstance(f, str) and f.startswith(".")})
+                        return ",".join(fs) or ("local:%s" % (call.args[0][1][0] if call.args[0][0] in ("c", "m") else "?"))
+                    undone = {set_id(m) for x in fam[o] for m in x.calls() if m.callee and re.search(r"hash::(set|map)::\{impl#\d+\}::remove$", m.callee)}
+                    def is_test(m):
+                        """the memo call's result decides a branch (a bare `visited.insert(x);` is marking, not testing)"""
+                        for sbb, t in b.switches():
+                            if t[1][0] in ("c", "m"):
+                                o_, p_ = trace(b, t[1], through_calls=True)
+                                if any(q is m for q in p_) or any(k == "call" and x is m for k, x in o_):
+                                    return sbb
+                        for (sbb, place, adt, arms, other, vmap) in b.enum_switches(r"core::option::Option$"):
+                            o_, p_ = trace(b, place[0])
+                            if any(q is m for q in p_) or any(k == "call" and x is m for k, x in o_):
+                                return sbb
+                        return None
                     memo = [m for m in b.calls() if m.callee and MEMO.search(m.callee) and m is not site and b.dominates(m.bb, c.bb)
-                            and not re.search(r"\.fragments", str(trace(b, m.args[0])[0]))]
+                            and not re.search(r"\.fragments|\.spreads", str(trace(b, m.args[0])[0])) and set_id(m) not in undone
+                            and is_test(m) is not None and b.dominates(is_test(m), c.bb)]
+                    path_only = [m for m in b.calls() if m.callee and MEMO.search(m.callee) and m is not site and b.dominates(m.bb, c.bb) and set_id(m) in undone]
                     if not memo:
                         # idiom: visited test at callee entry with an early return (if visited.contains(x) { return })
                         rec_blocks = [x.bb for x in b.calls() if x.callee and F.get(x.callee) is not None and F.get(x.callee).owner == o]
@@ -96,13 +114,16 @@ def run(F, R):
                             if m.callee and MEMO.search(m.callee) and m is not site and m.bb in b.reachable(0, avoid=[site.bb]):
                                 if ".fragments" in str(trace(b, m.args[0])[0]) or ".spreads" in str(trace(b, m.args[0])[0]):
                                     continue
+                                if set_id(m) in undone or is_test(m) is None:
+                                    continue
                                 r = b.reachable(m.bb, avoid=rec_blocks + [site.bb])
                                 if any(b.term(i)[0] == "ret" for i in r):
                                     memo = [m]
                     key = re.sub(r"\{impl#\d+\}", "{impl}", o.replace("async_graphql::", "")) + "->" + re.sub(r"\{impl#\d+\}", "{impl}", tgt_owner.replace("async_graphql::", "")).split("::")[-1]
                     R.check(bool(memo), "R11.1", "unmemoised-fragment-recursion:" + key, "%s:%s" % (b.file, c.line),
                             "visited/memo test %s dominates the recursion" % (memo[0].callee.split("::")[-1] if memo else ""),
-                            "recursion into %s after a fragment lookup with no visited-set / memo test: a chain of n fragments each spread twice is walked 2^n times" % tgt_owner.split("::")[-1])
+                            "recursion into %s after a fragment lookup with no visited-set / memo test%s: a chain of n fragments each spread twice is walked 2^n times"
+                            % (tgt_owner.split("::")[-1], " (the only guarding set is emptied again with remove(): it is a path set, not a memo)" if path_only else ""))
     R.floor("R11.1", "recursive walkers re-entering through a fragment lookup", n, 8)
 
     R.rule("R11.2", "the recursion-depth check precedes validation (bounds the depth of every Inline expansion): in prepare_request the parse stage "
